@@ -288,11 +288,7 @@ func structFields(s *gen.TypeSpec, out *[]sfield) {
 			if f.Tag == "-" {
 				continue
 			}
-			n := f.Tag
-			if j := strings.IndexByte(n, ','); j >= 0 {
-				n = n[:j]
-			}
-			if n != "" {
+			if n, _ := gen.TagName(f.Tag); n != "" {
 				name, tagged = n, true
 			}
 		}
